@@ -1,7 +1,7 @@
 (* C09 — Stop-on-error halts the batch; unprocessed items are never reported as successes.
    Only property theorems here. All schedules, all item / worker counts, all user code. *)
 From Flyt Require Import Base Script FlowTable Engine BatchConc EngineCorr EngineFacts
-     ItemMon BatchConcInv BatchConcItems BatchConcStop.
+     ItemMon BatchConcInv BatchConcItems BatchConcStop TwoWorkers.
 
 (* Once the stop flag is up (set by the record step of a failing item in stop mode) it stays
    up, and an item whose task had not yet passed its stop-flag check — not yet received, or
@@ -48,3 +48,22 @@ Theorem C09_never_run_is_error :
         exists e, slot_at s i = Some (VRes VNil (Some e)).
 Proof. exact never_run_error_lemma. Qed.
 Print Assumptions C09_never_run_is_error.
+
+(* stop mode on TWO workers, every schedule, context alive: if item y was executed and an earlier
+   item m was not (no callback was made for it: it was skipped), then every OTHER item before y was
+   processed to the end and SUCCEEDED.  So the item whose failure raised the stop flag is not
+   before y: the only items executed after a skipped one lie at or before the failing item.  This
+   is the bound the free-running stress runs are judged by (Corr/BatchStressCorr.v: no executed
+   item above both the smallest skipped item and the failing item). *)
+Theorem C09_two_workers_prefix :
+  forall (o : oracle) c nd (items : list val) qcap,
+    has_exec c = true ->
+    forall s0 sched,
+      let s := brun o c nd items true qcap (binit items 2 s0) sched in
+      cancelled (base s) = false ->
+      forall m y, m < y -> il s m = [] -> il s y <> [] ->
+      forall i, i < y -> i <> m ->
+        (i < deq s /\ (forall pc, ~ running s i pc)) /\
+        exists x, ist_result c (irun c nd (item_at items i) (il s i)) = Some (inl x).
+Proof. exact two_workers_lemma. Qed.
+Print Assumptions C09_two_workers_prefix.
